@@ -159,6 +159,39 @@ def ete_clades(t):
     return frozenset(frozenset(l.name for l in n.get_leaves()) for n in t.traverse())
 
 
+SPECIAL = {"a": "HLA-A*01:01", "b": "x(1)", "c": "p,q", "d": "[k]=v", "e": "semi;colon", "f": "tab\tname"}
+
+
+def ete_api(t, names):
+    """the same tree built through the ete3 API (no Newick text involved), leaves renamed by `names`"""
+    def rec(x, node):
+        if isinstance(x, tuple):
+            for c in x:
+                rec(c, node.add_child())
+        else:
+            node.name = names.get(x, x)
+    root = Tree()
+    rec(t, root)
+    return root
+
+
+def ill_formed(trees):
+    """None, or what is wrong with the parent/child links of the returned ete3 trees: every child's .up must be the node
+    that lists it, and no node object may occur in two of the returned trees (or twice in one)"""
+    seen = {}
+    for i, t in enumerate(trees):
+        if t.up is not None:
+            return f"result #{i} has a root with a parent"
+        for n in t.traverse():
+            if id(n) in seen:
+                return f"a node object ({n.name!r}) occurs in result #{seen[id(n)]} and in result #{i}"
+            seen[id(n)] = i
+            for c in n.children:
+                if c.up is not n:
+                    return f"result #{i}: a child of {sorted(l.name for l in n.get_leaves())} does not point back to it"
+    return None
+
+
 def name_internals(tree, mode):
     """ancestors given fresh names ("fresh"), all the same label ("same") or the name of one of their leaves ("leaf")"""
     for i, n in enumerate(tree.traverse("preorder")):
@@ -172,7 +205,20 @@ def check_roundtrip(t):
         bad = check_roundtrip_mode(t, mode)
         if bad:
             return bad if mode is None else f"ancestors named ({mode}): {bad}"
-    return None
+    # leaf labels with characters that Newick text cannot carry (tree built through the API)
+    tree = ete_api(t, SPECIAL)
+    want = frozenset(frozenset(SPECIAL.get(x, x) for x in cl) for cl in G.tree_clades(t))
+    try:
+        leaves, triples = tree_to_triples(tree)
+        back = tree_from_triples(leaves, triples)
+        allt = all_trees_from_triples(leaves, triples)
+    except Exception as exc:
+        return f"leaf labels {sorted(SPECIAL.values())[:3]}...: raised {type(exc).__name__}: {exc}"
+    if sorted(leaves) != sorted(SPECIAL.get(x, x) for x in G.tree_leaves(t)):
+        return f"leaf labels with special characters: tree_to_triples leaves {leaves}"
+    if back is None or ete_clades(back) != want or len(allt) != 1 or ete_clades(allt[0]) != want:
+        return f"leaf labels with special characters: rebuilt {back.write(format=9) if back else None} / {len(allt)} trees"
+    return ill_formed([back]) or ill_formed(allt)
 
 
 def check_roundtrip_mode(t, mode):
@@ -218,6 +264,9 @@ def check_triple_set(leaves, ts):
         one = tree_from_triples(list(leaves), list(ts))
     except Exception as exc:
         return f"raised {type(exc).__name__}: {exc} on {ts}", len(want)
+    bad = ill_formed(got) or (ill_formed([one]) if one is not None else None)
+    if bad:
+        return f"all_trees_from_triples / tree_from_triples({list(leaves)}, {ts}): {bad}", len(want)
     g = sorted(sorted(map(sorted, ete_clades(t))) for t in got)
     if g != want:
         return f"all_trees_from_triples({list(leaves)}, {ts}) gives {len(g)} trees ({len(set(map(str, g)))} distinct), expected {len(want)}", len(want)
@@ -251,6 +300,9 @@ def check_super(t1, t2):
         allt = all_supertrees([ete(t1), ete(t2)])
     except Exception as exc:
         return f"raised {type(exc).__name__}: {exc}", len(want)
+    bad = ill_formed(allt) or (ill_formed([one]) if one is not None else None)
+    if bad:
+        return f"all_supertrees / supertree({G.tree_newick(t1)}, {G.tree_newick(t2)}): {bad}", len(want)
     g = sorted(sorted(map(sorted, ete_clades(t))) for t in allt)
     if g != want:
         return f"all_supertrees({G.tree_newick(t1)}, {G.tree_newick(t2)}) gives {len(g)} trees, expected {len(want)}", len(want)
